@@ -118,6 +118,9 @@ func (obj *VectorId) SetParameters(parameters Vector) error {
 /* -------------------------------------------------------------------------- */
 
 func (obj *VectorId) ImportConfig(config ConfigDistribution, t ScalarType) error {
+  if len(config.Distributions) == 0 {
+    return fmt.Errorf("invalid config file: no distributions given")
+  }
   distributions := []VectorPdf{}
 
   for i := 0; i < len(config.Distributions); i++ {
